@@ -1003,6 +1003,220 @@ fn run_hist(nslots: usize, ops: &str) -> (String, String, Vec<String>) {
     (groups.join(" "), tags, ex.oracle)
 }
 
+// ------------------------------------------------------------- validity across the C Data Interface
+
+/// the array of `kind` with `ArrayData::offset() == data_off` (0 for the typed kinds ≥ 2, which
+/// keep only a validity offset) whose validity is bits `[nulls_off, nulls_off + len)` of `vbuf`
+fn ffin_array(kind: usize, data_off: usize, nulls_off: usize, len: usize, vbuf: &[u8]) -> Option<(ArrayRef, arrow_data::ArrayData)> {
+    use arrow_array::*;
+    let total = vbuf.len() * 8;
+    let vbits = BooleanBuffer::new(Buffer::from_vec(vbuf.to_vec()), 0, total);
+    let valid = |i: usize| vbits.value(i);
+    match kind {
+        0 => {
+            // BooleanArray whose values and validity carry different bit offsets
+            let values = BooleanBuffer::collect_bool(data_off + len + 9, |i| i % 3 == 0);
+            let a: ArrayRef = Arc::new(BooleanArray::new(
+                values.slice(data_off, len),
+                Some(arrow_buffer::NullBuffer::new(vbits.slice(nulls_off, len))),
+            ));
+            let d = a.to_data();
+            Some((a, d))
+        }
+        1 => {
+            // hand-built ArrayData with an offset of its own
+            let values: Vec<u8> = (0..data_off + len + 3).map(|i| (i * 7 % 251) as u8).collect();
+            let data = arrow_data::ArrayData::builder(DataType::UInt8)
+                .len(len)
+                .offset(data_off)
+                .add_buffer(Buffer::from_vec(values))
+                .nulls(Some(arrow_buffer::NullBuffer::new(vbits.slice(nulls_off, len))))
+                .build()
+                .ok()?;
+            // exported as built (a typed array would re-base its value buffer to offset 0)
+            Some((make_array(data.clone()), data))
+        }
+        _ => {
+            if data_off != 0 {
+                return None;
+            }
+            // typed arrays of `nulls_off + len` elements, sliced at `nulls_off`
+            let n = nulls_off + len;
+            let a: ArrayRef = match kind {
+                2 => Arc::new(Int32Array::from_iter((0..n).map(|i| valid(i).then_some(i as i32 * 3 - 7)))),
+                3 => Arc::new(StringArray::from_iter((0..n).map(|i| valid(i).then(|| format!("s{}", i % 11))))),
+                4 => {
+                    let mut b = builder::ListBuilder::new(builder::Int32Builder::new());
+                    for i in 0..n {
+                        if valid(i) {
+                            for k in 0..i % 3 {
+                                b.values().append_value((i + k) as i32);
+                            }
+                            b.append(true);
+                        } else {
+                            b.append(false);
+                        }
+                    }
+                    Arc::new(b.finish())
+                }
+                5 => {
+                    let c: ArrayRef = Arc::new(Int32Array::from_iter((0..n).map(|i| (i % 4 != 0).then_some(i as i32))));
+                    let fields: Fields = vec![Field::new("a", DataType::Int32, true)].into();
+                    let nulls = arrow_buffer::NullBuffer::new(vbits.slice(0, n));
+                    Arc::new(StructArray::new(fields, vec![c], Some(nulls)))
+                }
+                6 => {
+                    let keys = Int8Array::from_iter((0..n).map(|i| valid(i).then_some((i % 3) as i8)));
+                    let vals: ArrayRef = Arc::new(StringArray::from(vec!["x", "yy", "zzz"]));
+                    Arc::new(DictionaryArray::<types::Int8Type>::try_new(keys, vals).ok()?)
+                }
+                7 => Arc::new(StringViewArray::from_iter(
+                    (0..n).map(|i| valid(i).then(|| if i % 2 == 0 { format!("v{i}") } else { format!("a long string value number {i}") })),
+                )),
+                _ => return None,
+            };
+            let a = a.slice(nulls_off, len);
+            let d = a.to_data();
+            Some((a, d))
+        }
+    }
+}
+
+/// `C16 ffin <kind> <dataOff> <nullsOff> <len> <how> <validity hex>`
+fn run_ffin(t: &[&str]) -> (String, String, Vec<String>) {
+    use arrow_array::*;
+    let us = |k: usize| t[k].parse::<usize>().unwrap();
+    let (kind, data_off, nulls_off, len, how) = (us(2), us(3), us(4), us(5), us(6));
+    let vbuf = unhex(t[7]);
+    let mut oracle = vec![];
+    if nulls_off + len > vbuf.len() * 8 {
+        return ("bad-op".into(), String::new(), oracle);
+    }
+    let Some((array, data)) = ffin_array(kind, data_off, nulls_off, len, &vbuf) else {
+        return ("bad-op".into(), String::new(), oracle);
+    };
+    if kind == 1 && how == 2 {
+        return ("bad-op".into(), String::new(), oracle);
+    }
+    if data.offset() != data_off || data.nulls().map(|n| n.offset()).unwrap_or(nulls_off) != nulls_off {
+        oracle.push(format!("harness: built offsets {} / {:?}", data.offset(), data.nulls().map(|n| n.offset())));
+    }
+    let drops = Arc::new(AtomicUsize::new(0));
+    let (exp_off, exp_nc, exp_bits, imported): (usize, usize, String, ArrayRef) = if how == 2 {
+        // C Stream Interface: the array travels as the only column of a record batch
+        let schema = Arc::new(arrow_schema::Schema::new(vec![Field::new("c", array.data_type().clone(), true)]));
+        let batch = RecordBatch::try_new(schema.clone(), vec![array.clone()]).expect("batch");
+        let reader = RecordBatchIterator::new(vec![Ok(batch)], schema);
+        let stream = ffi_stream::FFI_ArrowArrayStream::new(Box::new(reader));
+        let mut got: Vec<RecordBatch> = ffi_stream::ArrowArrayStreamReader::try_new(stream).expect("stream").map(|b| b.expect("batch")).collect();
+        drops.fetch_add(1, Ordering::SeqCst);
+        (data_off, data.null_count(), "?".into(), got.remove(0).column(0).clone())
+    } else {
+        let (mut ffi, schema) = if how == 1 {
+            (FFI_ArrowArray::new(&data), FFI_ArrowSchema::try_from(data.data_type()).expect("schema"))
+        } else {
+            arrow_array::ffi::to_ffi(&data).expect("to_ffi")
+        };
+        // what a C consumer sees: offset, null_count, and the bitmap read at `offset`
+        let off = ffi.offset();
+        let nc = ffi.null_count();
+        let bitmap = ffi.buffer(0);
+        let bits = if bitmap.is_null() {
+            "-".to_string()
+        } else {
+            show_bits(&(0..len).map(|i| unsafe { (*bitmap.add((off + i) / 8) >> ((off + i) % 8)) & 1 == 1 }).collect::<Vec<_>>())
+        };
+        let wrap = Box::new(Wrap { orig_private: ffi.private_data(), orig_release: ffi.release(), drops: drops.clone() });
+        unsafe {
+            ffi.set_private_data(Box::into_raw(wrap) as *mut std::ffi::c_void);
+            ffi.set_release(Some(counting_release));
+        }
+        let imp = if how == 1 {
+            unsafe { arrow_array::ffi::from_ffi_and_data_type(ffi, data.data_type().clone()) }.expect("import")
+        } else {
+            unsafe { from_ffi(ffi, &schema) }.expect("import")
+        };
+        (off, nc, bits, make_array(imp))
+    };
+    // oracle: the imported array is logically equal to the exported one, null positions included,
+    // and its null count is the one its own bitmap shows
+    let iv: Vec<bool> = (0..imported.len()).map(|i| imported.is_valid(i)).collect();
+    let ev: Vec<bool> = (0..array.len()).map(|i| array.is_valid(i)).collect();
+    let recount = imported.nulls().map(|n| n.len() - n.inner().count_set_bits()).unwrap_or(0);
+    if imported.len() != array.len() || iv != ev || imported.to_data() != array.to_data() {
+        oracle.push("imported array is not logically equal to the exported one".into());
+    }
+    if imported.null_count() != recount || exp_nc != array.null_count() {
+        oracle.push(format!("null counts disagree: exported {} imported {} bitmap {}", exp_nc, imported.null_count(), recount));
+    }
+    let answer = format!("o{} n{} e{} i{} c{}", exp_off, exp_nc, exp_bits, show_bits(&iv), recount);
+    // release accounting: exactly one release, after the imported array is gone
+    if how != 2 && drops.load(Ordering::SeqCst) != 0 {
+        oracle.push("exported struct released while the imported array is alive".into());
+    }
+    drop(imported);
+    if drops.load(Ordering::SeqCst) != 1 {
+        oracle.push(format!("exported struct released {} times", drops.load(Ordering::SeqCst)));
+    }
+    let branch = if array.nulls().is_none() || array.null_count() == 0 && data.nulls().is_none() {
+        "none"
+    } else if data_off == nulls_off {
+        "same"
+    } else if data_off == 0 {
+        "sliced"
+    } else {
+        "copy"
+    };
+    let tags = format!(
+        "op:ffin ffin:kind{} ffin:how{} ffin:branch:{}{} nt",
+        kind,
+        how,
+        branch,
+        if data_off >= 8 && nulls_off > data_off && (nulls_off - data_off) % 8 == 0 { " ffin:byte-shift" } else { "" }
+    );
+    (answer, tags, oracle)
+}
+
+/// dense deterministic grid: data offset 0..=20 × validity offset 0..=40 × length, all kinds and
+/// all three transports
+fn ffin_block() -> Vec<String> {
+    let mut out = vec![];
+    let mut rng = Rng::new(0xFF1);
+    let line = |kind: usize, d: usize, n: usize, len: usize, how: usize, rng: &mut Rng| {
+        // (ArrayData::build wants the validity buffer to cover data offset + len bits too)
+        let nbytes = (n.max(d) + len + 7) / 8 + 1;
+        // irregular validity (never invariant under a shift), at least one null
+        let mut v = rng.bytes(nbytes);
+        v[(n + len / 2) / 8] &= !(1 << ((n + len / 2) % 8));
+        format!("C16 ffin {} {} {} {} {} {}", kind, d, n, len, how, hex(&v))
+    };
+    for d in 0..=20 {
+        for n in 0..=40 {
+            for len in [1usize, 9, 40] {
+                out.push(line(0, d, n, len, 0, &mut rng));
+            }
+            out.push(line(1, d, n, 17, (d + n) % 2, &mut rng));
+            if n % 4 == 0 || n == d + 8 || n == d + 16 {
+                out.push(line(0, d, n, 23, 1, &mut rng));
+                out.push(line(0, d, n, 23, 2, &mut rng));
+            }
+        }
+    }
+    for kind in 2..=7 {
+        for n in 0..=40 {
+            for (len, how) in [(1usize, 0usize), (17, n % 3), (40, 2)] {
+                out.push(line(kind, 0, n, len, how, &mut rng));
+            }
+        }
+    }
+    // all-valid validity (nothing to export) and all-null
+    for (d, n) in [(0usize, 0usize), (0, 9), (8, 16), (3, 3), (12, 5)] {
+        out.push(format!("C16 ffin 0 {} {} 20 0 {}", d, n, hex(&vec![0xFFu8; 9])));
+        out.push(format!("C16 ffin 0 {} {} 20 1 {}", d, n, hex(&vec![0u8; 9])));
+    }
+    out
+}
+
 fn run_case(line: &str) -> (String, String, Vec<String>) {
     let t: Vec<&str> = line.split(' ').collect();
     assert_eq!(t[0], "C16");
@@ -1013,6 +1227,14 @@ fn run_case(line: &str) -> (String, String, Vec<String>) {
             let mut res = (String::new(), String::new(), vec![]);
             let a = guarded(|| {
                 res = run_hist(n, &ops);
+                res.0.clone()
+            });
+            (a, res.1, res.2)
+        }
+        "ffin" => {
+            let mut res = (String::new(), String::new(), vec![]);
+            let a = guarded(|| {
+                res = run_ffin(&t);
                 res.0.clone()
             });
             (a, res.1, res.2)
@@ -1320,6 +1542,21 @@ fn main() {
     } else {
         let mut rng = Rng::new(args.seed ^ 0xC16A);
         let n = n_cases(&args, 3000, 100000);
+        for line in ffin_block() {
+            emit(&mut sink, line, "blk:ffin");
+        }
+        // random offsets beyond the grid
+        for _ in 0..300 {
+            let (kind, mut how) = (rng.usize(8), rng.usize(3));
+            if kind == 1 && how == 2 {
+                how = 0;
+            }
+            let n = rng.usize(200);
+            let d = if kind < 2 { rng.usize(100) } else { 0 };
+            let len = 1 + rng.usize(70);
+            let v = rng.bytes((n.max(d) + len + 7) / 8 + 1);
+            emit(&mut sink, format!("C16 ffin {} {} {} {} {} {}", kind, d, n, len, how, hex(&v)), "");
+        }
         for c in block_cases() {
             let (line, tag) = c.split_once('\t').unwrap();
             let group = tag.split(':').take(2).collect::<Vec<_>>().join(":");
